@@ -23,6 +23,7 @@ def main(ctx):
     axis.run_axis(ctx, ix, "C09.axis-typing", exceptions=tensorapi.axis_exceptions())
     tensorapi.rule_canonical_structure(ctx, ix)
     tensorapi.rule_mapping_consumption(ctx, ix)
+    tensorapi.rule_structure_walkers(ctx, ix)
     tensorapi.rule_validation_dominates(ctx, ix)
 
 
